@@ -11,11 +11,13 @@ CFG = dict(
           "by proto_s2c: one optional header-only envelope first, bodies, at most one trailer with status, metadata only on the first envelope, only "
           "resets after the trailer / after a reset; invariant on what is handed to the writer per id + sv's writer accounting + closure of the "
           "automaton under subsequences), C06_reset_order (no trailer of an id after a reset of it); C06_sys on the product model Sys.v (for every system run with conformant users, "
-          "both directions of every non-aborted stream call are accepted: the client's envelopes satisfy the server theorem's hypothesis). Not proved, monitor only: the unary response "
-          "shape (needs a hypothesis on unary handler programs) and trailer presence (finding trailer-lost-on-handler-deadline; the model has no "
-          "GRPC-Timeout). The client model is tied lock-step to the real client on every run (all orders of internal rules) and the "
+          "both directions of every non-aborted stream call are accepted: the client's envelopes satisfy the server theorem's hypothesis); C06_trailer_present (every stream handler that has "
+          "returned has handed a trailer of its id to the writer - then written, refused by the transport or in the Write call - unless its context was done when it offered it: the "
+          "caller's reset had been read, or the connection's context was done; the handler's OWN deadline - finding trailer-lost-on-handler-deadline - is outside the model, which has no "
+          "GRPC-Timeout). Not proved, monitor only: the unary response shape (needs a hypothesis on unary handler programs: a reply or an error). "
+          "The client model is tied lock-step to the real client on every run (all orders of internal rules) and the "
           "automata judge every per-id per-direction projection of every wire history of the rigs (real client, real server, end to end).",
-    props="Props/C06.v", theorems=["C06_client", "C06_client_refuted", "C06_server_origin", "C06_server_stream", "C06_reset_order", "C06_sys"],
+    props="Props/C06.v", theorems=["C06_client", "C06_client_refuted", "C06_server_origin", "C06_server_stream", "C06_reset_order", "C06_sys", "C06_trailer_present"],
     imports=["Model.Client", "Check.ClientC", "Model.Protocol", "Check.CwC", "Check.C06c"],
     case_type="cwcase", find_bad_from="find_bad_from", go_tags="cw",
     rigs=[dict(test="TestC06", timeout_quick=600, timeout_thorough=2400)],
